@@ -171,8 +171,10 @@ impl MemS {
     }
     pub fn of(m: &SimpleGseMemory) -> MemS {
         let (st, fr, cap, slots, max_pdu) = m.verif_parts();
-        if cap != slots + 2 {
-            machinery_error(&format!("SimpleGseMemory free-list capacity {} != slots+2 = {}", cap, slots + 2));
+        // the capacity is whatever the implementation chose (the margin is not part of any property); it only
+        // has to be stable: a restored memory must report the same capacity as a freshly constructed one
+        if cap < st.len() {
+            machinery_error(&format!("SimpleGseMemory free-list capacity {} < {} free buffers", cap, st.len()));
         }
         MemS {
             slots,
@@ -180,6 +182,10 @@ impl MemS {
             free: st.iter().map(|b| b.to_vec()).collect(),
             frags: fr.iter().map(|f| f.as_ref().map(|(c, b)| (CtxS::from_ctx(c), b.to_vec()))).collect(),
         }
+    }
+    /// free-list capacity as the implementation reports it (the margin is not part of any property)
+    pub fn cap_of(m: &SimpleGseMemory) -> usize {
+        m.verif_parts().2
     }
     pub fn build(&self) -> SimpleGseMemory {
         let m = SimpleGseMemory::verif_from_parts(
